@@ -73,17 +73,40 @@ def d2(ctx, prog):
     # sboxes: table k on word k
     f = prog.need_func(D, 'sboxes')
     loops = [l for l in ast.walk(f.node) if isinstance(l, ast.For)]
-    good = False
-    if len(loops) == 1 and isinstance(loops[0].target, ast.Name) and norm(loops[0].iter).replace(' ', '') in ('_np.arange(8)', 'range(8)', 'np.arange(8)'):
+    key = f'{f.key}::table k on word k'
+    verdict = None
+    if len(loops) == 1 and isinstance(loops[0].target, ast.Name) and isinstance(loops[0].iter, ast.Call) and norm(loops[0].iter.func).split('.')[-1] in ('arange', 'range') \
+            and [const_value(a) for a in loops[0].iter.args] == [8]:
         v = loops[0].target.id
-        b = loops[0].body
-        good = len(b) == 1 and isinstance(b[0], ast.Assign) and norm(b[0].targets[0]).replace(' ', '') == f'out[:,{v}]' \
-            and norm(b[0].value).replace(' ', '') == f'SBOXES[{v}][data[:,{v}]]'
-    ctx.check(good, 'C06-D2', f'{f.key}::table k on word k', 'sboxes() does not apply SBOXES[k] to word k for k = 0..7', 'SBOXES[k] applied to word k, k = 0..7', f.where())
+        sts = [b for b in loops[0].body if isinstance(b, ast.Assign) and isinstance(b.targets[0], ast.Subscript)]
+        if len(sts) == 1 and len(loops[0].body) == 1:
+            t, val = sts[0].targets[0], sts[0].value
+            te = t.slice.elts if isinstance(t.slice, ast.Tuple) else []
+            if len(te) == 2 and isinstance(te[0], ast.Slice) and isinstance(val, ast.Subscript) and isinstance(val.value, ast.Subscript) and norm(val.value.value) == 'SBOXES' \
+                    and isinstance(val.slice, ast.Subscript) and isinstance(val.slice.slice, ast.Tuple) and len(val.slice.slice.elts) == 2 and isinstance(val.slice.slice.elts[0], ast.Slice):
+                a_, b_, c_ = astutil.affine(te[1]), astutil.affine(val.value.slice), astutil.affine(val.slice.slice.elts[1])
+                if None not in (a_, b_, c_):
+                    verdict = (a_ == b_ == c_ == {v: 1}, f'out[:, {norm(te[1])}] = SBOXES[{norm(val.value.slice)}][data[:, {norm(val.slice.slice.elts[1])}]]')
+    if verdict is None:
+        ctx.undecided('C06-D2', key, 'the loop applying the eight S-boxes was not recognised', f.where())
+    else:
+        ctx.check(verdict[0], 'C06-D2', key, f'`{verdict[1]}`: S-box k is not applied to word k and stored at position k', 'SBOXES[k] applied to word k, k = 0..7', f.where())
     f = prog.need_func(D, 'add_round_key')
-    rets = [r.value for r in ast.walk(f.node) if isinstance(r, ast.Return)]
-    good = len(rets) == 1 and isinstance(rets[0], ast.Call) and norm(rets[0].func).split('.')[-1] == 'bitwise_xor' and sorted(norm(a) for a in rets[0].args) == sorted(f.params)
-    ctx.check(good, 'C06-D2', f'{f.key}::xor', 'add_round_key is not the bitwise xor of its two arguments', 'add_round_key = state xor keys', f.where())
+    paths = astutil.return_paths(f.node)
+    e = paths[0][1] if paths and len(paths) == 1 else None
+    key = f'{f.key}::xor'
+    ops = None
+    if isinstance(e, ast.Call) and norm(e.func).split('.')[-1] == 'bitwise_xor' and len(e.args) == 2:
+        ops = [norm(a) for a in e.args]
+    elif isinstance(e, ast.BinOp) and isinstance(e.op, ast.BitXor):
+        ops = [norm(e.left), norm(e.right)]
+    elif (isinstance(e, ast.Call) and norm(e.func).split('.')[-1] in ('bitwise_or', 'bitwise_and', 'add', 'subtract')) or isinstance(e, ast.BinOp):
+        ctx.fail('C06-D2', key, f'add_round_key computes `{norm(e)[:60]}`, not the xor of state and key', f.where())
+        ops = False
+    if ops is None:
+        ctx.undecided('C06-D2', key, f'add_round_key returns `{norm(e)[:60] if e is not None else "?"}`', f.where())
+    elif ops:
+        ctx.check(sorted(ops) == sorted(f.params), 'C06-D2', key, f'add_round_key xors {ops}, not its two arguments', 'add_round_key = state xor keys', f.where())
     return n
 
 
